@@ -2,6 +2,7 @@ package props
 
 import (
 	"fmt"
+	"github.com/gobuffalo/plush/v5/helpers/helptest"
 	"html/template"
 	"math"
 	"sort"
@@ -84,6 +85,8 @@ var c04Pool = []kval{
 	{"k_fnhc", func() interface{} { return func(h NamedHelperContext) string { return "hc" } }},     // parameter convertible to, but not assignable from, plush.HelperContext
 	{"k_fnwide", func() interface{} { return func(h WideHelperContext) string { return "wide" } }},  // an interface that plush.HelperContext does not satisfy although it embeds the helper-context methods
 	{"k_fnphc", func() interface{} { return func(h *plush.HelperContext) string { return "phc" } }}, // pointer to the helper context: implements the interface, neither assignable nor convertible
+	{"k_embs", func() interface{} { return WithNilStringer{} }},                                     // String() promoted through a nil embedded pointer
+	{"k_embsi", func() interface{} { return &WithNilStringerIface{} }},                              // String() of a nil embedded interface
 	{"k_fnhc2", func() interface{} {
 		return func(s string, m map[string]interface{}, h NamedHelperContext) string { return s }
 	}},
@@ -160,7 +163,7 @@ func init() {
 	engine.Register(&engine.Prop{
 		ID: "C04",
 		Shards: func(th bool) []string {
-			s := []string{"unary", "index", "member", "for", "userfn"}
+			s := []string{"unary", "index", "member", "for", "userfn", "context", "poly"}
 			for _, op := range c04Ops {
 				s = append(s, "bin:"+op)
 			}
@@ -178,7 +181,7 @@ func init() {
 			return s
 		},
 		Run:  c04Run,
-		Rule: "matrices over a pool of 61 injected value kinds (nil, bools, every int/uint/float width, strings, HTML, slices/arrays/pointers to them, maps of 5 key/value typings, nil map/slice/pointer/func, struct, funcs incl. variadic, iterator, chan, time, error) plus 11 expression-produced kinds (user function object, its call, slice+x, array/hash literal, literals, unknown identifier): (operator x L x R), !L / if(L) / emission / silent statement, L[I] (+ .Field/.Method tails), L[I]=V (all triples), member and method access incl. nil receivers, for over L, L(args<=3), user functions with p params x a args (0..4), and every built-in helper taken from plush.Helpers at run time x argument lists of length <=2 (+block, +options map). Oracle: (out,nil) or (\"\",err); no panic, no step-budget exhaustion, no worker crash. All cases are non-trivial (each is a distinct kind combination).",
+		Rule: "matrices over a pool of 61 injected value kinds (nil, bools, every int/uint/float width, strings, HTML, slices/arrays/pointers to them, maps of 5 key/value typings, nil map/slice/pointer/func, struct, funcs incl. variadic, iterator, chan, time, error) plus 11 expression-produced kinds (user function object, its call, slice+x, array/hash literal, literals, unknown identifier): (operator x L x R), !L / if(L) / emission / silent statement, L[I] (+ .Field/.Method tails), L[I]=V (all triples), member and method access incl. nil receivers, for over L, L(args<=3), user functions with p params x a args (0..4), and every built-in helper taken from plush.Helpers at run time x argument lists of length <=2 (+block, +options map). Oracle: (out,nil) or (\"\",err); no panic, no step-budget exhaustion, no worker crash. All cases are non-trivial (each is a distinct kind combination). (context) 12 programs rendered with a foreign hctx.Context (helptest) and with NewContextWith(nil). (poly) one field / method / indexed path node evaluated with receivers of different struct types (mixed slice, consecutive executions of one parsed template).",
 		Bound: func(th bool) string {
 			if th {
 				return "all matrices complete; plus one level of nesting (L op R) op' X for every operator pair over the pool"
@@ -207,6 +210,63 @@ func c04Run(t *engine.T, shard string) {
 					c04Case(t, "nest", P+`<%= k_s `+op2+` (`+l+` `+arg+` `+r+`) %>`)
 				}
 			}
+		}
+	case "context":
+		// Render / Exec accept any hctx.Context: with one that is not plush's own, or a plush context built
+		// from a nil map, execution still returns output or an error
+		srcs := []string{
+			`plain <%= s %>`, `<%= for (v) in xs { %><%= v %><% } %>`, `<%= ps[0].Name %>`, `<%= ps[0].Hello() %>`, `<%= mk().Name %>`,
+			`<%= mk().Kids[0].Name %>`, `<% let a = [1, 2] %><% a[0] = 3 %><%= a %>`, `<% let f = fn(x) { return x + 1 } %><%= f(1) %>`,
+			`<%= if (s) { %>y<% } else { %>n<% } %>`, `<%= s + "x" %>|<%= xs[1] %>`, `<% let h = {"k": 1} %><%= h["k"] %>`, `<%= nope %>`,
+		}
+		for _, src := range srcs {
+			src := src
+			for _, kind := range []string{"helptest", "nil-map"} {
+				kind := kind
+				t.Case("context "+kind+" "+q(src), true, func() (string, *engine.Fail) {
+					plush.CacheEnabled = false
+					var out string
+					var err error
+					p := Person{Name: "N", Kids: []Person{{Name: "K"}}}
+					if kind == "helptest" {
+						hc := helptest.NewContext()
+						hc.Set("s", "S")
+						hc.Set("xs", []int{1, 2})
+						hc.Set("ps", []Person{p})
+						hc.Set("mk", func() Person { return p })
+						out, err = plush.Render(src, hc)
+					} else {
+						c := plush.NewContextWith(nil)
+						c.Set("s", "S")
+						c.Set("xs", []int{1, 2})
+						c.Set("ps", []Person{p})
+						c.Set("mk", func() Person { return p })
+						out, err = plush.Render(src, c)
+					}
+					if f := Totality(out, err); f != nil {
+						return "", f
+					}
+					if err != nil {
+						return "error", nil
+					}
+					return "ok", nil
+				})
+			}
+		}
+	case "poly":
+		// one node, receivers of different struct types (loop over a mixed slice / consecutive executions)
+		for _, pc := range PolyCases() {
+			pc := pc
+			t.Case("poly "+pc.Name+" "+q(pc.Src), true, func() (string, *engine.Fail) {
+				out, err := RunPoly(pc)
+				if f := Totality(out, err); f != nil {
+					return "", f
+				}
+				if err != nil {
+					return "error", nil
+				}
+				return "ok", nil
+			})
 		}
 	case "unary":
 		for _, l := range atoms {
